@@ -255,6 +255,7 @@ type msgSpec struct {
 	ID      string   `json:"id,omitempty"`       // id handed to LogRequest/LogResponse (Stream API only)
 	SameReq bool     `json:"same_req,omitempty"` // response to the previous message's request (shares its context)
 	Skip    bool     `json:"skip,omitempty"`     // the context is marked SkipLogging before the Modifier sees the message
+	Wire    int      `json:"wire,omitempty"`     // k>0: the message is wireMsgs[k-1] parsed by http.ReadRequest / ReadResponse (wire.go); Hdr is unused
 	Body    bodySpec `json:"body"`
 	Cons    consSpec `json:"cons"`
 }
@@ -456,6 +457,9 @@ var baseTime = time.Unix(1700000000, 0)
 
 // prepare builds the message and its martian context (which LogRequest/LogResponse require).
 func prepare(i int, sp msgSpec, prev *msgObs, removes *[]func()) *msgObs {
+	if sp.Wire > 0 {
+		return prepareWire(i, sp, prev, removes)
+	}
 	v := hdrVariants[sp.Hdr]
 	m := &msgObs{spec: sp, label: fmt.Sprintf("m%d", i)}
 	var inner io.ReadCloser = &scripted{spec: sp.Body}
@@ -1199,7 +1203,8 @@ func rtCases(tier string) []rtCase {
 		}
 	}
 	out = append(out, auditCases(tier)...)
-	return append(out, fanoutCases(tier)...)
+	out = append(out, fanoutCases(tier)...)
+	return append(out, wireCases(tier)...)
 }
 
 func (c rtCase) weight() int64 {
@@ -1400,6 +1405,11 @@ func roundTripCase(out *shardOut, i int, c rtCase, states map[string]bool) {
 			states[k] = true
 			if strings.HasPrefix(k, "fanout/") {
 				out.Counters["fanout_subscribers:"+strings.TrimPrefix(k, "fanout/")]++
+			}
+			if strings.HasPrefix(k, "wire/") { // wire/<type>/<framing>/...: messages of space P judged, per type and framing
+				if parts := strings.SplitN(k, "/", 4); len(parts) == 4 {
+					out.Counters["wire_messages:"+parts[1]+"/"+parts[2]]++
+				}
 			}
 			if strings.HasPrefix(k, "sub/stall=true") {
 				if strings.Contains(k, "complete=true") {
@@ -2198,6 +2208,7 @@ func firstLines(s string, n int) string {
 
 func main() {
 	tier := lib.Tier()
+	buildWireMsgs(tier) // the pool msgSpec.Wire indexes (also needed by replay)
 	if os.Getenv("VERIF_REPLAY") != "" {
 		replay(os.Getenv("VERIF_REPLAY"))
 		return
